@@ -275,25 +275,44 @@ func (svc *service) stop() {
 	// the closed buffer.
 }
 
+// sendRegistered registers a request with its acknowledgement queue and only
+// then writes it to the connection. The other way round, a peer that answers
+// quickly could have its acknowledgement processed before the request was
+// registered: the acknowledgement was dropped and the completion never fired.
+func (svc *service) sendRegistered(ackq *sessions.Ackqueue, msg message.Message, onComplete interface{}) error {
+	// The packet identifier is assigned when the message is encoded for the
+	// first time, and the queue is keyed by it.
+	if _, err := msg.Encode(make([]byte, msg.Len())); err != nil {
+		return fmt.Errorf("(%s) Error sending %s message: %v", svc.cid(), msg.Name(), err)
+	}
+
+	if err := ackq.Wait(msg, onComplete); err != nil {
+		return err
+	}
+
+	if _, err := svc.writeMessage(msg); err != nil {
+		return fmt.Errorf("(%s) Error sending %s message: %v", svc.cid(), msg.Name(), err)
+	}
+
+	return nil
+}
+
 func (svc *service) publish(msg *message.PublishMessage, onComplete OnCompleteFunc) error {
+	switch msg.QoS() {
+	case message.QosAtLeastOnce:
+		return svc.sendRegistered(svc.sess.Pub1ack, msg, onComplete)
+
+	case message.QosExactlyOnce:
+		return svc.sendRegistered(svc.sess.Pub2out, msg, onComplete)
+	}
+
 	_, err := svc.writeMessage(msg)
 	if err != nil {
 		return fmt.Errorf("(%s) Error sending %s message: %v", svc.cid(), msg.Name(), err)
 	}
 
-	switch msg.QoS() {
-	case message.QosAtMostOnce:
-		if onComplete != nil {
-			return onComplete(msg, nil, nil)
-		}
-
-		return nil
-
-	case message.QosAtLeastOnce:
-		return svc.sess.Pub1ack.Wait(msg, onComplete)
-
-	case message.QosExactlyOnce:
-		return svc.sess.Pub2out.Wait(msg, onComplete)
+	if onComplete != nil {
+		return onComplete(msg, nil, nil)
 	}
 
 	return nil
@@ -302,11 +321,6 @@ func (svc *service) publish(msg *message.PublishMessage, onComplete OnCompleteFu
 func (svc *service) subscribe(msg *message.SubscribeMessage, onComplete OnCompleteFunc, onPublish OnPublishFunc) error {
 	if onPublish == nil {
 		return fmt.Errorf("onPublish function is nil. No need to subscribe")
-	}
-
-	_, err := svc.writeMessage(msg)
-	if err != nil {
-		return fmt.Errorf("(%s) Error sending %s message: %v", svc.cid(), msg.Name(), err)
 	}
 
 	var onc OnCompleteFunc = func(msg, ack message.Message, err error) error {
@@ -376,15 +390,10 @@ func (svc *service) subscribe(msg *message.SubscribeMessage, onComplete OnComple
 		return err2
 	}
 
-	return svc.sess.Suback.Wait(msg, onc)
+	return svc.sendRegistered(svc.sess.Suback, msg, onc)
 }
 
 func (svc *service) unsubscribe(msg *message.UnsubscribeMessage, onComplete OnCompleteFunc) error {
-	_, err := svc.writeMessage(msg)
-	if err != nil {
-		return fmt.Errorf("(%s) Error sending %s message: %v", svc.cid(), msg.Name(), err)
-	}
-
 	var onc OnCompleteFunc = func(msg, ack message.Message, err error) error {
 		onComplete := onComplete
 
@@ -438,18 +447,13 @@ func (svc *service) unsubscribe(msg *message.UnsubscribeMessage, onComplete OnCo
 		return err2
 	}
 
-	return svc.sess.Unsuback.Wait(msg, onc)
+	return svc.sendRegistered(svc.sess.Unsuback, msg, onc)
 }
 
 func (svc *service) ping(onComplete OnCompleteFunc) error {
 	msg := message.NewPingreqMessage()
 
-	_, err := svc.writeMessage(msg)
-	if err != nil {
-		return fmt.Errorf("(%s) Error sending %s message: %v", svc.cid(), msg.Name(), err)
-	}
-
-	return svc.sess.Pingack.Wait(msg, onComplete)
+	return svc.sendRegistered(svc.sess.Pingack, msg, onComplete)
 }
 
 func (svc *service) isDone() bool {
